@@ -4,6 +4,8 @@
 //   run <dir> <crc> <fresh> <killat> <tracefx> <op>...   child runs the history; trace in <dir>/trace
 //   rec <dir> <crc> <killat>                             child reopens <dir>/db (recovery), dumps, _exit
 //   wal <dir> <crc>                                      child calls iwal_create only (recovery step alone)
+// <crc> = option flags of THAT session (mkopts: 1 checksum checking, 2 4 KB log buffer, 4 no trim on close); the flags of a
+// rec/wal/continuation session need not be the writer's: the checks also recover with the other buffer size / checksum setting
 // ops: p<db>:<keyhex>:<vlen>:<seed>  d<db>:<keyhex>  s (iwkv_sync)  c (checkpoint)  n<db> (create db)  q (close, exit)
 //      b (online backup into <dir>/bkp)
 // Effects are numbered through the iwverif_fx hook when /repo has it (IOWOW_VERIF_FX_HOOK), otherwise
